@@ -622,6 +622,17 @@ theorem accepted_momentum_from_elected_pillar (c : Ctx) (elected : Nat → Optio
   have hs := hv.2.2.2.2.2.2.2.2.2.2.2.2.2.2.1
   exact ⟨hs, (producer_sound c elected _ _ hp).2⟩
 
+/-- "directly extends the node's frontier": the verifier alone accepts a momentum on top of ANY momentum whose store
+    the node still holds (a sibling of the frontier passes `ApplyMomentum`); it is the insertion that requires the
+    parent to be the node's frontier. A momentum that was accepted AND changed the ledger extends the frontier. -/
+theorem inserted_momentum_extends_frontier (frontier : Bytes × Nat) (m : Momentum)
+    (h : addMomentum frontier m ≠ frontier) :
+    m.prevHash = frontier.1 ∧ prevHeight m = frontier.2 ∧ addMomentum frontier m = (m.hash, m.height) := by
+  unfold addMomentum at *
+  split
+  · rename_i hc; exact ⟨hc.1, hc.2, rfl⟩
+  · rename_i hc; rw [if_neg hc] at h; exact absurd rfl h
+
 /-- negative witness for the cache hypothesis: a (locally built) momentum whose `Timestamp` cache differs from the
     hashed `TimestampUnix` is judged on the cache for clock and producer — deserialised momentums are always
     consistent (`EnsureCache`). -/
